@@ -281,7 +281,7 @@ func checkUnmarshal(v reflect.Value) func([]byte) error {
 		return v.Interface().(encoding.BinaryUnmarshaler).UnmarshalBinary
 	}
 	// The field value is itself a pointer that implements the unmarshaler.
-	if pt := v.Elem().Type(); pt.Implements(binaryType) {
+	if pt := v.Elem().Type(); pt.Kind() == reflect.Pointer && pt.Implements(binaryType) {
 		// If the field value is nil, allocate a value to unmarshal into.
 		if v.Elem().IsNil() {
 			v.Elem().Set(reflect.New(pt.Elem()))
